@@ -31,7 +31,9 @@ impl crate::variant::record::samples::Series for Series<'_> {
         i: usize,
     ) -> Option<Option<io::Result<Value<'a>>>> {
         let sample = self.samples.iter().nth(i)?;
-        sample.get_index(header, self.i)
+
+        // A sample may drop trailing values (or be `.`): the value is missing, not the sample.
+        Some(sample.get_index(header, self.i).unwrap_or(None))
     }
 
     fn iter<'a, 'h: 'a>(
